@@ -543,6 +543,32 @@ static size_t get_value_size(carquet_physical_type_t type, int32_t type_length) 
 }
 
 /* ============================================================================
+ * Helper: bounds of the memory-mapped (or in-memory) file
+ * ============================================================================
+ */
+
+/* Bytes available at `offset` in the mapped file; 0 when the offset is outside it.
+ * Offsets and sizes in the footer and in page headers are untrusted. */
+static size_t mmap_available(const carquet_reader_t* file_reader, int64_t offset) {
+    if (offset < 0 || (uint64_t)offset >= (uint64_t)file_reader->file_size) {
+        return 0;
+    }
+    return file_reader->file_size - (size_t)offset;
+}
+
+/* Page payload [header_size, header_size + compressed_size) must lie inside `avail`. */
+static bool page_extent_ok(const parquet_page_header_t* page_header,
+                           size_t header_size, size_t avail) {
+    if (page_header->compressed_page_size < 0 || page_header->uncompressed_page_size < 0) {
+        return false;
+    }
+    if (header_size > avail) {
+        return false;
+    }
+    return (size_t)page_header->compressed_page_size <= avail - header_size;
+}
+
+/* ============================================================================
  * Helper: Load dictionary page (mmap path)
  * ============================================================================
  */
@@ -557,18 +583,28 @@ static carquet_status_t load_dictionary_page_mmap(
 
     /* Parse page header directly from mmap */
     int64_t dict_offset = col_meta->dictionary_page_offset;
+    size_t avail = mmap_available(file_reader, dict_offset);
+    if (avail == 0) {
+        CARQUET_SET_ERROR(error, CARQUET_ERROR_INVALID_PAGE, "Dictionary page offset outside file");
+        return CARQUET_ERROR_INVALID_PAGE;
+    }
     const uint8_t* header_ptr = mmap_data + dict_offset;
 
     parquet_page_header_t page_header;
     size_t header_size;
     carquet_status_t status = parquet_parse_page_header(
-        header_ptr, 256, &page_header, &header_size, error);
+        header_ptr, avail < 256 ? avail : 256, &page_header, &header_size, error);
     if (status != CARQUET_OK) {
         return status;
     }
 
     if (page_header.type != CARQUET_PAGE_DICTIONARY) {
         CARQUET_SET_ERROR(error, CARQUET_ERROR_INVALID_PAGE, "Expected dictionary page");
+        return CARQUET_ERROR_INVALID_PAGE;
+    }
+
+    if (!page_extent_ok(&page_header, header_size, avail)) {
+        CARQUET_SET_ERROR(error, CARQUET_ERROR_INVALID_PAGE, "Dictionary page extends past end of file");
         return CARQUET_ERROR_INVALID_PAGE;
     }
 
@@ -781,18 +817,29 @@ static carquet_status_t load_next_page_mmap(
 
     /* Parse page header directly from mmap */
     int64_t page_offset = reader->data_start_offset + reader->current_page;
+    size_t avail = mmap_available(file_reader, page_offset);
+    if (avail == 0) {
+        CARQUET_SET_ERROR(error, CARQUET_ERROR_INVALID_PAGE, "Data page offset outside file");
+        return CARQUET_ERROR_INVALID_PAGE;
+    }
     const uint8_t* header_ptr = mmap_data + page_offset;
 
     parquet_page_header_t page_header;
     size_t header_size;
     carquet_status_t status = parquet_parse_page_header(
-        header_ptr, 256, &page_header, &header_size, error);
+        header_ptr, avail < 256 ? avail : 256, &page_header, &header_size, error);
     if (status != CARQUET_OK) {
         return status;
     }
 
     if (page_header.type != CARQUET_PAGE_DATA && page_header.type != CARQUET_PAGE_DATA_V2) {
         CARQUET_SET_ERROR(error, CARQUET_ERROR_INVALID_PAGE, "Expected data page");
+        return CARQUET_ERROR_INVALID_PAGE;
+    }
+
+    if (!page_extent_ok(&page_header, header_size, avail) ||
+        page_header.data_page_header.num_values < 0) {
+        CARQUET_SET_ERROR(error, CARQUET_ERROR_INVALID_PAGE, "Data page extends past end of file");
         return CARQUET_ERROR_INVALID_PAGE;
     }
 
@@ -826,6 +873,13 @@ static carquet_status_t load_next_page_mmap(
 
     if (zero_copy_eligible && !has_levels) {
         /* ====== ZERO-COPY PATH ====== */
+
+        /* The values handed out are a view of the page bytes: they must all be there */
+        if (value_size != 0 &&
+            (size_t)num_values > (size_t)page_header.compressed_page_size / value_size) {
+            CARQUET_SET_ERROR(error, CARQUET_ERROR_INVALID_PAGE, "Page holds fewer values than its header claims");
+            return CARQUET_ERROR_INVALID_PAGE;
+        }
 
         /* Free previous owned buffer if any */
         if (reader->decoded_ownership == CARQUET_DATA_OWNED) {
